@@ -21,7 +21,7 @@ LEVEL_TEXT = ("Theorems in Coq (Props/C20.v): (1) for every program of lock-prot
               "(sm2/sm3/sm4/x509 package operations, shared Sm4Cipher, first use of the curve, CertPool reads, Config once/ticket keys/LRU cache, "
               "Conn Read/Write/Close) satisfies that hypothesis for every program built from its rows, SetSessionTicketKeys at any time included "
               "(finite check lifted; first use of a Config against rotation also swept step by step: the rotated keys are always kept); (3) the activeCall protocol of Conn.Write/Close for any number of "
-              "calls and all schedules; (4) threads that take their locks in one rank order never reach a state with every unfinished thread blocked on a mutex, "
+              "calls and all schedules, and a Close on the close_notify path never coexists with a Write inside the record layer (the shortcut condition is read from the source); (4) threads that take their locks in one rank order never reach a state with every unfinished thread blocked on a mutex, "
               "the rows of the table are so ordered, and the lock acquisitions found in the current source go strictly upwards in the same rank. Tie: `go build -race` of the scenario driver, 2..32 goroutines per row pair, fresh process per scenario.")
 LEVEL_NOTE = ("PARTIAL BY NATURE. The theorems carry the logic of sharing only: the Go scheduler, the Go memory model, preemption inside an "
               "access and the correspondence between the access table and the code are not proved. The table (coq/Conc/AccessTable.v) is written by "
@@ -44,7 +44,7 @@ ASSUMPTIONS = [
     "no renegotiation on the shared connection (default RenegotiateNever)",
     "exported package variables are caller-synchronised: x509.ContentEncryptionAlgorithm (no setter; PKCS7Encrypt / PKCS7EncryptSM2 read it once per call) and a direct assignment `sm4.IV = ...` are not performed while other goroutines use the packages (row x509_set_cea is outside the claim, theorem package_state_writers; scenario pkcs7_cea changes the selector between concurrent phases only).  The library call sm4.SetIV may run at any time since /repo 0fa6cb9; the slice handed to it must not be changed afterwards",
 ]
-RULE = ("fixed scenario plan (23 scenarios: 15 shared-object scenarios, the alert branches of one connection, and package-level state / operations - SM4 helpers with the IV changed between phases and by a concurrent SetIV, GCM helpers on one key, PKCS#7 encryption under both content-encryption settings (changed between concurrent phases), SM2 key exchange with shared long-term keys, PKCS#12 encode / decode of shared objects; GOMAXPROCS 2, 4 or all processors per scenario - the shared-object scenarios incl. first use of a fresh cipher.Block, first use of the curve, first use of a CertPool with AKI-miss/name-hit chains, first use of a Config against key rotation with a ticket-under-rotated-key observation) x goroutine counts {2,8,32} (thorough: {2,3/4,8,16,32}, more iterations); each scenario runs in a fresh process; every "
+RULE = ("fixed scenario plan (25 scenarios: 15 shared-object scenarios, the alert branches of one connection, Close against a Write parked in the transport, and package-level state / operations - SM4 helpers with the IV changed between phases and by a concurrent SetIV, GCM helpers on one key, PKCS#7 encryption under both content-encryption settings (changed between concurrent phases), SM2 key exchange with shared long-term keys, PKCS#12 encode / decode of shared objects; GOMAXPROCS 2, 4 or all processors per scenario - the shared-object scenarios incl. first use of a fresh cipher.Block, first use of the curve, first use of a CertPool with AKI-miss/name-hit chains, first use of a Config against key rotation with a ticket-under-rotated-key observation) x goroutine counts {2,8,32} (thorough: {2,3/4,8,16,32}, more iterations); each scenario runs in a fresh process; every "
         "call's result (digest of all outputs for deterministic per-goroutine nonce streams, verdicts, parsed fields, echoed/delivered bytes) is compared "
         "with the single-threaded result of the same call; the same plan and the corpus run again in a -race build; a case is non-trivial when it "
         "uses >= 2 goroutines; distinct = distinct (scenario, goroutines, iterations, seed)")
